@@ -20,6 +20,7 @@ RULE = (
     "(thorough; quick: d=2 M<=4,k<=2 for B_2/C2^2/C4 + d=3 M<=3,k<=1). Each tuple: both scale modes. Non-trivial: expected "
     "dimension >= 1 (dimension-0 tuples are still checked: the family must be empty); distinct by tuple."
 )
+RULE += " Also: operator lists in shuffled order (2 of 3 cases), a decoy request for another group of equal order first, and (thorough) the two HEAVY tuples d=3 M=5 k=3 for C3 and C4z."
 EXHAUSTIVE = {"quick": True, "thorough": True}
 ASSUMPTIONS = [
     "reference action; character formula (1/|G|) sum_g fix(g) tr(g)^k det(g)^p evaluated in integers",
